@@ -81,6 +81,21 @@ func tokenCheck(run *core.Run, prop string) []ledgerRun {
 	}
 	run.States += res.Distinct
 	run.Transitions += res.Generated
+	// for ALL amounts: the conjunction of the invariants is inductive (Apalache, TokenInd.tla = Token.tla with amounts in Nat)
+	for _, c := range []struct {
+		what, want string
+		args       []string
+	}{
+		{"base case", "ok", []string{"--cinit=CInitOK", "--init=Init", "--inv=IndInv", "--length=0"}},
+		{"inductive step", "ok", []string{"--cinit=CInitOK", "--init=IndInit", "--inv=IndInv", "--length=1"}},
+		{"negative control (Mint ignores the remaining supply)", "violated", []string{"--cinit=CInitBroken", "--init=IndInit", "--inv=IndInv", "--length=1"}},
+	} {
+		got, err := core.RunApalache("TokenInd", 5*time.Minute, c.args...)
+		if err != nil || got != c.want {
+			core.Fatal("TokenInd %s: %s, expected %s (%v)", c.what, got, c.want, err)
+		}
+	}
+	run.Set("token_inductive_invariant", "Apalache: IndInv (TypeOK, SupplyIsHeld, WithinMax, FrozenWhenNotMintable, NothingBeforeIssue, OwnerIsUser) holds initially and is preserved by every action for all natural amounts; refuted when Mint does not look at the remaining supply")
 	every := int64(5)
 	if run.Thorough() {
 		every = 1
